@@ -364,6 +364,11 @@ MatchingC(e, pre, post) ==
 ---------------------------------------------------------------------------
 \* C13: the AnsiStr result (a) of an operation equals the AnsiString result (b) of the same operation
 TwinC(e, pre, post) ==
+  IF e.tag = "spell" THEN
+     \* C14: the same history with every settings argument spelled differently gives the same value
+     Cl("C14.history_same_settings", HasStyle(pre[e.a.b[1]]), EquivVal(pre[e.a.a[1]], pre[e.a.b[1]]))
+  \o Cl("C14.history_same_rendering", HasStyle(pre[e.a.b[1]]), pre[e.a.a[1]].q = pre[e.a.b[1]].q)
+  ELSE
      Cl("C13.twin_count", TRUE, Len(e.a.a) = Len(e.a.b))
   \o IF Len(e.a.a) # Len(e.a.b) THEN None ELSE
         Cl("C13.twin_kind", TRUE, \A k \in DOMAIN e.a.a : pre[e.a.a[k]].k = "A")
